@@ -386,6 +386,12 @@ func (s *ShardResult) Merge(o *ShardResult) {
 		s.Hashes = append(s.Hashes, h)
 	}
 	for k, v := range o.Counters {
+		if strings.HasPrefix(k, "max_") {
+			if v > s.Counters[k] {
+				s.Counters[k] = v
+			}
+			continue
+		}
 		s.Counters[k] += v
 	}
 	for k, vs := range o.Sets {
